@@ -303,7 +303,15 @@ pub fn prods() -> Vec<Prod> {
 }
 
 fn ec_ok(expected: &EC, got: &EC) -> bool {
-    expected == got || *got == EC::Other
+    if expected == got || *got == EC::Other {
+        return true;
+    }
+    // the name a built-in puts into its FunctionError is message text, not a class: only the
+    // names of the harness's own host functions (which say *which* body failed) are compared
+    if let (EC::Function(a), EC::Function(c)) = (expected, got) {
+        return crate::reval::BUILTINS.contains(&a.as_str()) || crate::reval::BUILTINS.contains(&c.as_str());
+    }
+    false
 }
 
 pub fn compare(exp: &R, got: &Out) -> Option<bool> {
